@@ -367,7 +367,7 @@ class HashDomain(ExactCollections, Domain):
             from .colls import lift_value
 
             try:
-                return lift_value(fold(self.fn.module.assigns[name], self.fn.module))
+                return lift_value(self.fn.module.const(name))
             except NotConst:
                 return TOP
         return state.get(name, TOP)
